@@ -393,6 +393,8 @@ def cmd_setup():
         for tier in ('quick', 'thorough'):
             if tier in cfg:
                 need.add((cfg[tier].get('flavour', cfg.get('flavour', 'asan')), cfg.get('binary', 'runner')))
+        if cfg.get('run_fn') == 'run_c06':
+            need.add(('tsan', 'runner'))
     for fl, b in sorted(need):
         if not build(fl, b):
             ok = False
@@ -463,6 +465,8 @@ def main(argv):
     if replay:
         runner = cfg.get('replay_fn')
         if runner:
+            if isinstance(runner, str):
+                runner = globals()[runner]
             return runner(pid, cfg, replay)
         flavour = cfg.get('quick', {}).get('flavour', cfg.get('flavour', 'asan'))
         exe = build(flavour, cfg.get('binary', 'runner'))
@@ -483,4 +487,164 @@ def main(argv):
     if tier not in cfg:
         tier = 'quick'
     fn = cfg.get('run_fn', run_rc_property)
+    if isinstance(fn, str):
+        fn = globals()[fn]
     return fn(pid, cfg, tier, seed, t0)
+
+
+# ---------------------------------------------------------------------------------------------
+# C06: deterministic schedule half (asan runner, prop C06) + ThreadSanitizer race half (tsan runner, prop C06race)
+# ---------------------------------------------------------------------------------------------
+RACE_PAT = re.compile(r'Search::stop\b|stop_command|stop_search')
+
+
+def tsan_blocks(text):
+    """split ThreadSanitizer output into report blocks"""
+    blocks = []
+    cur = None
+    for line in text.splitlines():
+        if 'WARNING: ThreadSanitizer' in line:
+            if cur:
+                blocks.append('\n'.join(cur))
+            cur = [line]
+        elif cur is not None:
+            cur.append(line)
+            if line.startswith('SUMMARY: ThreadSanitizer'):
+                blocks.append('\n'.join(cur))
+                cur = None
+    if cur:
+        blocks.append('\n'.join(cur))
+    return blocks
+
+
+def run_race_shard(exe, seed, cases, rundir, tag):
+    env = dict(os.environ)
+    env['TSAN_OPTIONS'] = 'halt_on_error=0:exitcode=0:report_signal_unsafe=0:history_size=4'
+    out = os.path.join(rundir, 'race-%s.json' % tag)
+    fp = os.path.join(rundir, 'race-%s.fp' % tag)
+    lg = os.path.join(rundir, 'race-%s.log' % tag)
+    cmd = [exe, '--prop', 'C06race', '--tier', 'quick', '--seed', str(seed), '--cases', str(cases), '--max-size', '100', '--scale', '3',
+           '--out', out, '--fp', fp, '--opt', 'zseed=1']
+    with open(lg, 'w') as lf:
+        r = subprocess.run(cmd, stdout=lf, stderr=subprocess.STDOUT, env=env, timeout=3600)
+    text = open(lg, errors='replace').read()
+    rep = json.load(open(out)) if os.path.exists(out) else None
+    return r.returncode, text, rep, fp
+
+
+def race_signature(block):
+    frames = re.findall(r'#\d+ (\S+).*?(/repo/engine/[\w.]+):(\d+)', block)
+    locs = sorted(set('%s:%s' % (os.path.basename(f), l) for _, f, l in frames))
+    return 'race:stop_flag:' + ','.join(locs[:4])
+
+
+def run_c06(pid, cfg, tier, seed, t0):
+    # deterministic half through the generic runner (writes evidence); then the race half is merged into it
+    rc = run_rc_property(pid, cfg, tier, seed, t0)
+    ev_path = os.path.join(ROOT, 'evidence', pid + '.json')
+    if rc == 2 and not os.path.exists(ev_path):
+        return rc
+    tc = cfg[tier]
+    exe = build('tsan', 'runner')
+    if not exe:
+        return 2
+    rundir = os.path.join(BUILD, 'tmp', 'race-%s-%d' % (pid, os.getpid()))
+    shutil.rmtree(rundir, ignore_errors=True)
+    os.makedirs(rundir)
+    nsh = tc.get('race_shards', 4)
+    ncase = tc.get('race_cases', 5)
+    with ThreadPoolExecutor(nsh) as ex:
+        res = list(ex.map(lambda i: (i,) + run_race_shard(exe, seed * 1000 + i, ncase, rundir, str(i)), range(nsh)))
+    sessions = 0
+    relevant = []
+    other = {}
+    race_classes = {}
+    for i, code, text, rep, fp in res:
+        if rep:
+            sessions += rep['evaluations']
+            for k, v in rep['classes'].items():
+                if k.startswith('c06race'):
+                    race_classes[k] = race_classes.get(k, 0) + v
+        for b in tsan_blocks(text):
+            if RACE_PAT.search(b):
+                relevant.append((i, b))
+            else:
+                s = re.search(r'SUMMARY: ThreadSanitizer: ([^\n]*)', b)
+                key = s.group(1)[:160] if s else 'unclassified'
+                other[key] = other.get(key, 0) + 1
+    ev = json.load(open(ev_path))
+    cov = ev['coverage']
+    cov['race_half'] = dict(flavour='tsan', sessions=sessions, shards=nsh, classes=race_classes,
+                            stop_flag_race_reports=len(relevant), other_tsan_reports=other,
+                            rule='free-running in-process UCI sessions (go infinite / movetime + stop after k visits counted with a relaxed atomic); oracle = zero ThreadSanitizer reports whose stacks touch Search::stop / stop_command')
+    known = [k for k in load_known() if k.get('property') == pid and k.get('status') == 'known']
+    viol = []
+    if relevant:
+        i, b = relevant[0]
+        os.makedirs(os.path.join(ROOT, 'replays'), exist_ok=True)
+        dest = os.path.join(ROOT, 'replays', '%s-%s-seed%d-race-shard%d.tape' % (pid, tier, seed, i))
+        with open(dest, 'w') as f:
+            f.write('# property C06\n# race-shard seed=%d cases=%d\n# signature %s\n' % (seed * 1000 + i, ncase, race_signature(b)))
+            for line in b.splitlines():
+                f.write('# failure ' + line + '\n')
+        # confirm 3x in fresh processes
+        ok = 0
+        for _ in range(3):
+            code, text, rep, fp = run_race_shard(exe, seed * 1000 + i, ncase, rundir, 'replay')
+            if any(RACE_PAT.search(x) for x in tsan_blocks(text)):
+                ok += 1
+        if ok == 3:
+            sig = race_signature(b)
+            matched = [k for k in known if k.get('signature') and re.search(k['signature'], sig + '\n' + b)]
+            if matched:
+                print('KNOWN-FINDING: property=%s %s' % (pid, matched[0].get('what', '')))
+            else:
+                viol.append((dest, sig, b))
+        else:
+            cov.setdefault('unreproduced', []).append(dict(replay=dest, reproduced=ok))
+    if viol:
+        ev['violations'] = ev.get('violations', 0) + len(viol)
+        cov.setdefault('violation_replays', []).extend(v[0] for v in viol)
+    ev['wall_s'] = round(time.time() - t0, 2)
+    json.dump(ev, open(ev_path, 'w'), indent=1)
+    shutil.rmtree(rundir, ignore_errors=True)
+    if viol:
+        for dest, sig, b in viol:
+            log('--- ThreadSanitizer report touching the stop flag ---\n' + b[:3000])
+            print('VIOLATION property=%s replay=%s' % (pid, os.path.relpath(dest, ROOT)))
+        return 1
+    if rc == 0:
+        if sessions < tc.get('race_min_sessions', 5):
+            log('GENERATOR-HEALTH GATE FAILED for C06 race half: only %d sessions' % sessions)
+            return 2
+        print('OK property=%s race-half sessions=%d stop_flag_reports=0 other_tsan_reports=%d' % (pid, sessions, sum(other.values())))
+    return rc
+
+
+def replay_c06(pid, cfg, path):
+    txt = open(path).read()
+    m = re.search(r'# race-shard seed=(\d+) cases=(\d+)', txt)
+    if not m:
+        exe = build('asan', 'runner')
+        if not exe:
+            return 2
+        c, o = replay_once(exe, 'C06', path)
+        print(o)
+        if c != 0:
+            print('VIOLATION property=%s replay=%s' % (pid, path))
+            return 1
+        return 0
+    exe = build('tsan', 'runner')
+    if not exe:
+        return 2
+    rundir = os.path.join(BUILD, 'tmp', 'race-replay-%d' % os.getpid())
+    os.makedirs(rundir, exist_ok=True)
+    code, text, rep, fp = run_race_shard(exe, int(m.group(1)), int(m.group(2)), rundir, 'r')
+    shutil.rmtree(rundir, ignore_errors=True)
+    rel = [b for b in tsan_blocks(text) if RACE_PAT.search(b)]
+    if rel:
+        print(rel[0][:3000])
+        print('VIOLATION property=%s replay=%s' % (pid, path))
+        return 1
+    print('REPLAY-PASS property=%s (no ThreadSanitizer report touching the stop flag)' % pid)
+    return 0
